@@ -43,4 +43,8 @@ require go.uber.org/multierr v1.11.0 // indirect
 
 require golang.org/x/sync v0.22.0 // indirect
 
-require golang.org/x/time v0.15.0 // indirect
+require (
+	github.com/hashicorp/errwrap v1.1.0 // indirect
+	github.com/hashicorp/go-multierror v1.1.1 // indirect
+	golang.org/x/time v0.15.0 // indirect
+)
